@@ -77,8 +77,32 @@ pub async fn verify_consecutive_append_only<TC: Configuration>(
         y
     }));
 
+    // No node of the proof may shadow another one: if a label is equal to, or a prefix of,
+    // another label in the set, rebuilding the tree would silently discard part of it
+    verify_prefix_free_labels(&unchanged_with_inserted_nodes)?;
+
     verify_append_only_hash::<TC>(unchanged_with_inserted_nodes, end_hash, Some(end_epoch - 1))
         .await?;
+    Ok(())
+}
+
+/// Checks that no label in the set is equal to, or a prefix of, another label in the set.
+fn verify_prefix_free_labels(nodes: &[AzksElement]) -> Result<(), AkdError> {
+    // Normalize away any bits set beyond the label's length, then sort by (value, length): a
+    // label which is a prefix of another one in the set is then followed by a label it prefixes
+    let mut labels = nodes
+        .iter()
+        .map(|node| node.label.get_prefix(node.label.label_len))
+        .collect::<Vec<_>>();
+    labels.sort_by(|a, b| (a.label_val, a.label_len).cmp(&(b.label_val, b.label_len)));
+    for pair in labels.windows(2) {
+        if pair[0].is_prefix_of(&pair[1]) {
+            return Err(AkdError::AuditErr(AuditorError::VerifyAuditProof(format!(
+                "The proof contains overlapping nodes: {} is a prefix of {}",
+                pair[0], pair[1]
+            ))));
+        }
+    }
     Ok(())
 }
 
